@@ -54,10 +54,23 @@ def build_inputs(ctx, case, env):
     for fi in range(nfiles):
         p = env.path(f"ref{fi}.h5ad")
         nm = [f"cell{(3 * (k + i) + 1) % 11}_{k + i}" for i in range(ncell)]
-        dense = [[ctx.real(f"x[{fi},{i},{g}]", 0 if raw else None, None)
-                  for g in range(ng)] for i in range(ncell)]
+        xdt = case.get('x_dtype')
+        if xdt is not None:
+            # counts stored in a narrow integer type: any value of its
+            # range (modelled as a real in that range; a witness is
+            # replayed with its values truncated to integers)
+            info = np.iinfo(np.dtype(xdt))
+            dense = [[ctx.real(f"x[{fi},{i},{g}]", int(info.min),
+                               int(info.max))
+                      for g in range(ng)] for i in range(ncell)]
+            if ctx.mode != 'sym':
+                dense = [[float(int(v)) for v in row] for row in dense]
+        else:
+            dense = [[ctx.real(f"x[{fi},{i},{g}]", 0 if raw else None, None)
+                      for g in range(ng)] for i in range(ncell)]
         enc = case.get('enc', 'dense')
-        write_h5ad_x(env, p, dense, enc)
+        write_h5ad_x(env, p, dense, enc,
+                     **({'dtype': np.dtype(xdt)} if xdt else {}))
         paths.append(p)
         names[p] = nm
         # var table of this file (the column order may differ)
